@@ -4,20 +4,24 @@ Property theorems only (helper lemmas live in Lemmas/Sampling*.lean).
 
 Model: PybropsModel/Model/Sampling.lean transcribes pybrops/core/random/sampling.py as it is after fix fc545079
 (`susIdx`/`susDraws`/`sus` = stochastic_universal_sampling, `tiledIdx`/`tiledChoice` = tiled_choice,
-`axisShuffle` = axis_shuffle + core/util/array.py:sliceaxisix, `outcross` = outcross_shuffle) with the
-generator's draws as explicit oracle inputs.  All theorems quantify over every input size and every draw the
-generator can deliver (offset exactly 0 included), in exact arithmetic over any ordered field (ℚ, ℝ);
-`sus_loop_safe_under_any_rounding` covers what does not depend on arithmetic at all.
-`…_meets_spec`: the model's output satisfies the decidable Spec the harness evaluates on the implementation's
-output.  `…_prerepair_counterexample`: the function before the fix (`susIdxPrerepair`, Lean `Float`), kept to
-document the defects D7a/D7b/D7c the fix removed; the harness keeps their inputs as regression cases.
+`axisShuffleLoop`/`axisShuffleZ` = axis_shuffle as the literal loop over `sliceTuples` = core/util/array.py:sliceaxisix
+(`axisShuffle` is its proved-equal gather form), `outcross`/`outcrossNd` = outcross_shuffle for a C-contiguous /
+any table) with the generator's draws as explicit oracle inputs.  All theorems quantify over every input size and
+every draw the generator can deliver, in exact arithmetic over any ordered field (ℚ, ℝ);
+`sus_loop_safe_under_any_rounding` covers what does not depend on arithmetic, `sus_floor_ceil_rounded` the
+floor/ceiling claim under a rounding contract.
+`…_spec_iff`: each Bool Spec oracle the harness evaluates on the implementation's output is equivalent to the Prop
+of the theorems; `…_meets_spec`: the model's output satisfies it.
+Open findings (model = code as it is, `_partial` + `_counterexample`): D7d empty request, D7e non-contiguous cross
+table, D7f negative axis.  `…_prerepair_counterexample`: the function before fix fc545079 (D7a/D7b/D7c).
 -/
 import PybropsModel.Lemmas.SamplingSusFinal
 import PybropsModel.Lemmas.SamplingTiled
 import PybropsModel.Lemmas.SamplingRows
 import PybropsModel.Lemmas.SamplingAxis
 import PybropsModel.Lemmas.SamplingSpec
-import PybropsModel.Lemmas.SamplingSusSafe
+import PybropsModel.Lemmas.SamplingRounded
+import PybropsModel.Lemmas.SamplingAxisLoop
 set_option linter.unusedSectionVars false
 set_option autoImplicit false
 
@@ -38,10 +42,15 @@ def SusOracle (p : List α) (size : List Nat) (sigma : List Nat) (o : α) (perm 
   isPerm sigma p.length = true ∧ nonIncreasing (sigma.map (fun i => p.getD i 0)) = true ∧
   0 ≤ o ∧ o < Np.sum p / ((size.prod : Nat) : α) ∧ isPerm perm size.prod = true
 
+/-
+FULL STATEMENT (false of the model of the code as it is, see `sus_size_zero_counterexample`; finding D7d):
+  the theorem below without `0 < size.prod` in `SusValid` — "all output sizes" includes the empty request
+  (`size = 0`, `size = (2, 0)`), for which numpy's own samplers and `tiled_choice` return an empty array.
+-/
 /-- **Exactly the requested number of draws.**  The function never fails and returns `prod(size)` indices,
     whatever the weights, the size, the tie order, the offset (0 included) and the shuffle.
     (The returned array is this flat list reshaped to `size`.) -/
-theorem sus_returns_requested_number (p : List α) (size sigma perm : List Nat) (o : α)
+theorem sus_returns_requested_number_partial (p : List α) (size sigma perm : List Nat) (o : α)
     (hv : SusValid p size) (ho : SusOracle p size sigma o perm) :
     ∃ idx, susDraws p size sigma o perm = .ok idx ∧ idx.length = size.prod := by
   obtain ⟨hnn, hpos, hdraws⟩ := hv
@@ -51,6 +60,14 @@ theorem sus_returns_requested_number (p : List α) (size sigma perm : List Nat) 
     rw [hlen]; exact (isPerm_iff perm size.prod).mp hpm
   refine ⟨applyPerm perm sel, (susDraws_ok_iff p size sigma o perm _).mpr ⟨sel, hsel, hperm, rfl⟩, ?_⟩
   rw [applyPerm_length perm sel hperm, hlen]
+
+/-- **D7d.**  A request of zero draws (`size = 0`) does not return an empty array: `ptr_dist = tot/0 = inf` and
+    `rng.uniform(0.0, inf)` raises `OverflowError` (model: error tag `value`), for any valid weights. -/
+theorem sus_size_zero_counterexample :
+    (∀ x ∈ ([1, 2] : List ℚ), 0 ≤ x) ∧ 0 < Np.sum ([1, 2] : List ℚ) ∧
+    susDraws (α := ℚ) [1, 2] [0] [1, 0] 0 [] = .error "value" ∧
+    susDraws (α := ℚ) [1, 2] [2, 0] [1, 0] 0 [] = .error "value" := by
+  refine ⟨by decide, by decide +kernel, ?_, ?_⟩ <;> rfl
 
 /-- the length claim for any successful run of the model (this is what `reshape(size)` needs) -/
 theorem sus_length (p : List α) (size sigma perm idx : List Nat) (o : α)
@@ -163,39 +180,82 @@ theorem sus_floor_ceil_values {β : Type} [DecidableEq β] (a : List β) (p : Li
     rw [take_count idx a ha hlt i (hlen ▸ hi), List.count_eq_zero]
     exact sus_zero_weight_never_selected p size sigma perm idx o hp hT hidx i hi hz
 
-/-- **The model's output passes the Spec oracle** `c17.spec_sus` (the decidable statement evaluated on the
-    implementation's output on every run): length, membership, every count within one of the expected
-    count, no zero-weight element — for every offset. -/
+/-- **The model's output satisfies the SUS clause** `SusSpec` for every offset … -/
+theorem sus_satisfies_spec {β : Type} [DecidableEq β] (a : List β) (p : List α)
+    (size sigma perm : List Nat) (o : α) (out : List β)
+    (hp : ∀ x ∈ p, 0 ≤ x) (hT : 0 < Np.sum p) (ha : a.Nodup) (hlen : a.length = p.length)
+    (h : sus a p size sigma o perm = .ok out) : SusSpec p size.prod a out := by
+  have hmain := fun i hi => sus_floor_ceil_values a p size sigma perm o out hp hT ha hlen h i hi
+  obtain ⟨idx, hidx, hlt, hout⟩ := (sus_ok_iff a p size sigma o perm out).mp h
+  refine ⟨?_, ?_, fun i hi => ⟨hlen ▸ hi, ?_, ?_⟩⟩
+  · rw [hout, take_length_of_lt idx a hlt, sus_length p size sigma perm idx o hidx]
+  · intro v hv; rw [hout] at hv; exact take_mem idx a v hv
+  · have hg : p.getD i 0 = p[i] := by simp [hi]
+    rw [hg]; exact (hmain i hi).2.2.1
+  · have hg : p.getD i 0 = p[i] := by simp [hi]
+    rw [hg]; exact (hmain i hi).2.2.2
+
+/-- … and therefore **passes the Bool oracle** `c17.spec_sus` that is evaluated on the implementation's output. -/
 theorem sus_meets_spec {β : Type} [DecidableEq β] (a : List β) (p : List α)
     (size sigma perm : List Nat) (o : α) (out : List β)
     (hp : ∀ x ∈ p, 0 ≤ x) (hT : 0 < Np.sum p) (ha : a.Nodup) (hlen : a.length = p.length)
     (h : sus a p size sigma o perm = .ok out) :
-    (specSus p size.prod a out).ok = true := by
-  have hmain := fun i hi => sus_floor_ceil_values a p size sigma perm o out hp hT ha hlen h i hi
-  unfold SusVerdict.ok specSus
-  simp only [Bool.and_eq_true, beq_iff_eq, List.all_eq_true, decide_eq_true_eq, List.isEmpty_iff,
-    List.filter_eq_nil_iff, List.mem_range]
-  refine ⟨⟨⟨?_, ?_⟩, ?_⟩, ?_⟩
-  · obtain ⟨idx, hidx, hlt, rfl⟩ := (sus_ok_iff a p size sigma o perm out).mp h
-    rw [take_length_of_lt idx a hlt, sus_length p size sigma perm idx o hidx]
-  · intro v hv
-    obtain ⟨idx, _, _, rfl⟩ := (sus_ok_iff a p size sigma o perm out).mp h
-    exact take_mem idx a v hv
-  · intro i hi
-    have hia : i < a.length := hlen ▸ hi
-    rw [List.getElem?_eq_getElem hia]
-    simp only [Bool.not_eq_true', Bool.not_eq_false]
-    have hg : p.getD i 0 = p[i] := by simp [hi]
-    rw [hg, within1_iff]
-    exact (hmain i hi).2.2.1
-  · intro i hi
-    have hia : i < a.length := hlen ▸ hi
-    rw [List.getElem?_eq_getElem hia]
-    simp only [Bool.and_eq_true, decide_eq_true_eq, not_and, not_not]
-    intro hz
-    have hg : p.getD i 0 = p[i] := by simp [hi]
-    rw [hg] at hz
-    exact (hmain i hi).2.2.2 hz
+    (specSus p size.prod a out).ok = true :=
+  (specSus_iff p size.prod a out).mpr (sus_satisfies_spec a p size sigma perm o out hp hT ha hlen h)
+
+/-- **Spec oracle = statement**: `specSus` is true exactly when the returned array has the requested length,
+    consists of elements of `a`, every element occurs the floor or the ceiling of its expected count and no
+    element of weight zero occurs. -/
+theorem sus_spec_iff {β : Type} [DecidableEq β] (p : List α) (k : Nat) (a out : List β) :
+    (specSus p k a out).ok = true ↔ SusSpec p k a out := specSus_iff p k a out
+
+/-! ### binary64: the rounding contract -/
+
+/-- **Floor / ceiling under rounding.**  Let the loop run on *computed* cumulative sums `cs'` and pointers `ptrs'`
+    (any rounding function, any summation order, any computed spacing) and any interval convention `lo'`
+    that is right-open when the offset is exactly 0 (the code's `lo = offset < 0.5*ptr_dist` is).  If every
+    computed value is within `ε` of its exact value and **no exact pointer lies within `2ε` of an exact
+    cumulative-weight boundary before the last element of positive weight**, the draws are exactly those of the
+    exact loop: `k` of them, each element the floor or the ceiling of its expected count.
+    What this leaves open is exactly the excluded ties (see `sus_rounded_tie_counterexample`) and an offset that
+    rounding pushes to or beyond the exact spacing `Σp/k`. -/
+theorem sus_floor_ceil_rounded (p : List α) (k : Nat) (sigma : List Nat) (o : α) (lo' : Bool)
+    (hp : ∀ x ∈ p, 0 ≤ x) (hT : 0 < Np.sum p)
+    (h1 : isPerm sigma p.length = true) (h2 : nonIncreasing (sigma.map (fun i => p.getD i 0)) = true)
+    (hk : k ≠ 0) (ho : 0 ≤ o) (hod : o < Np.sum p / (k : α)) (hlo : lo' = false → 0 < o)
+    (ε : α) (cs' ptrs' : List α) (hcs' : cs'.length = sigma.length) (hptrs' : ptrs'.length = k)
+    (hclose_c : ∀ r < (p.filter (fun x => decide (0 < x) || decide (x < 0))).length - 1, r < sigma.length →
+      |cs'.getD r 0 - (Np.cumsum (sigma.map (fun i => p.getD i 0))).getD r 0| ≤ ε)
+    (hclose_t : ∀ j < k, |ptrs'.getD j 0 - (o + (j : α) * (Np.sum p / (k : α)))| ≤ ε)
+    (hsep : ∀ r < (p.filter (fun x => decide (0 < x) || decide (x < 0))).length - 1, r < sigma.length →
+      ∀ j < k, 2 * ε < |(o + (j : α) * (Np.sum p / (k : α)))
+                        - (Np.cumsum (sigma.map (fun i => p.getD i 0))).getD r 0|) :
+    ∃ sel, walkG (ptrCmp lo') (cs'.zip sigma)
+        ((p.filter (fun x => decide (0 < x) || decide (x < 0))).length - 1) ptrs' = some sel ∧
+      sel.length = k ∧
+      ∀ i (hi : i < p.length),
+        (sel.count i : ℤ) = ⌊(k : α) * p[i] / Np.sum p⌋ ∨ (sel.count i : ℤ) = ⌈(k : α) * p[i] / Np.sum p⌉ := by
+  obtain ⟨sel, hsel, hrun⟩ := run_rounded p k sigma o lo' hp hT h1 h2 hk ho hod ε cs' ptrs' hcs' hptrs'
+    hclose_c hclose_t hsep
+  refine ⟨sel, hsel, ?_, fun i hi => ?_⟩
+  · rw [walkG_length _ _ _ _ _ hsel, hptrs']
+  · have hs := sigmaFacts p sigma h1
+    obtain ⟨r, hr, rfl⟩ := hs.exists_pos i hi
+    have := run_floor_ceil_pos p k sigma o lo' sel hp hT hrun hlo r hr
+    have hg : p.getD sigma[r] 0 = p[sigma[r]] := by simp [hi]
+    rwa [hg] at this
+
+/-- **The ties the rounding contract excludes are real**: `p = (1,1)`, 2 draws, exact offset `7/8` (pointers
+    `7/8, 15/8`, boundary 1).  A computed first pointer `9/8` (within `ε = 1/4` of `7/8`, which is within `2ε` of
+    the boundary) makes the loop return the second element twice: counts (0, 2), expected (1, 1). -/
+theorem sus_rounded_tie_counterexample :
+    walkG (ptrCmp (α := ℚ) false) (([1, 2] : List ℚ).zip [0, 1]) 1 [9/8, 15/8] = some [1, 1] ∧
+    |(9/8 : ℚ) - 7/8| ≤ 1/4 ∧ ¬ (2 * (1/4 : ℚ) < |7/8 - 1|) ∧
+    ¬ ((([1, 1] : List Nat).count 0 : ℤ) = ⌊((2 : Nat) : ℚ) * 1 / Np.sum [1, 1]⌋ ∨
+       (([1, 1] : List Nat).count 0 : ℤ) = ⌈((2 : Nat) : ℚ) * 1 / Np.sum [1, 1]⌉) := by
+  have hs : Np.sum ([1, 1] : List ℚ) = 2 := by decide +kernel
+  refine ⟨by decide +kernel, by norm_num [abs_le], by norm_num [abs_lt], ?_⟩
+  rw [hs]; norm_num
 
 /-! ### why fix fc545079 matters: the function before the fix (`susIdxPrerepair`; findings D7a, D7b, D7c) -/
 
@@ -311,24 +371,28 @@ theorem tiled_balance_values {β : Type} [DecidableEq β] (a : List β) (size dr
   rw [take_count idx a ha hm i hi, take_count idx a ha hm j hj]
   exact hb i hi j hj
 
-/-- the model's output passes the Spec oracle `c17.spec_tiled` -/
+/-- the model's output satisfies the tiled-choice clause `TiledSpec`, i.e. passes the Spec oracle `c17.spec_tiled` -/
 theorem tiled_meets_spec {β : Type} [DecidableEq β] (a : List β) (size draw perm : List Nat) (out : List β)
     (ha : a.Nodup) (h : tiledChoice a size false draw perm = .ok out) :
-    specTiled a out size.prod = true := by
+    TiledSpec a out size.prod ∧ specTiled a out size.prod = true := by
   obtain ⟨idx, hidx, rfl⟩ := (tiledChoice_ok_iff a size false draw perm out).mp h
   obtain ⟨hl, hm, hq, hb, _⟩ := tiled_balance a.length size.prod draw perm idx hidx
-  unfold specTiled
-  simp only [Bool.and_eq_true, beq_iff_eq, List.all_eq_true, decide_eq_true_eq]
-  refine ⟨⟨⟨by rw [take_length_of_lt idx a hm, hl], fun v hv => take_mem idx a v hv⟩, ?_⟩, ?_⟩
-  · intro u hu
-    obtain ⟨i, hi, rfl⟩ := List.mem_iff_getElem.mp hu
-    rw [take_count idx a ha hm i hi]
-    exact hq i hi
-  · intro u hu v hv
-    obtain ⟨i, hi, rfl⟩ := List.mem_iff_getElem.mp hu
-    obtain ⟨j, hj, rfl⟩ := List.mem_iff_getElem.mp hv
-    rw [take_count idx a ha hm i hi, take_count idx a ha hm j hj]
-    exact hb i hi j hj
+  have hspec : TiledSpec a (Np.take idx a) size.prod := by
+    refine ⟨by rw [take_length_of_lt idx a hm, hl], fun v hv => take_mem idx a v hv, ?_, ?_⟩
+    · intro u hu
+      obtain ⟨i, hi, rfl⟩ := List.mem_iff_getElem.mp hu
+      rw [take_count idx a ha hm i hi]
+      exact hq i hi
+    · intro u hu v hv
+      obtain ⟨i, hi, rfl⟩ := List.mem_iff_getElem.mp hu
+      obtain ⟨j, hj, rfl⟩ := List.mem_iff_getElem.mp hv
+      rw [take_count idx a ha hm i hi, take_count idx a ha hm j hj]
+      exact hb i hi j hj
+  exact ⟨hspec, (specTiled_iff _ _ _).mpr hspec⟩
+
+/-- Spec oracle = statement -/
+theorem tiled_spec_iff {β : Type} [DecidableEq β] (a out : List β) (nsample : Nat) :
+    specTiled a out nsample = true ↔ TiledSpec a out nsample := specTiled_iff a out nsample
 
 end tiled
 
@@ -373,7 +437,7 @@ theorem outcross_rows_antitone (nrow ncol : Nat) (x y : List β) (orders : List 
 /-- **It stops only at a local optimum**: in the returned table no exchange of two entries (any two
     positions, in either order, equal positions and positions outside the table included) lowers the
     number of repeated individuals. -/
-theorem outcross_local_opt (nrow ncol : Nat) (x y : List β) (orders : List (List (Nat × Nat)))
+theorem outcross_contiguous_local_opt_partial (nrow ncol : Nat) (x y : List β) (orders : List (List (Nat × Nat)))
     (h : outcross nrow ncol x orders = .ok y) (i j : Nat) :
     score nrow ncol y ≤ score nrow ncol (swap y i j) := by
   obtain ⟨_, hord, hc⟩ := (outcross_ok_iff nrow ncol x orders y).mp h
@@ -398,21 +462,53 @@ theorem outcross_terminates (nrow ncol : Nat) (x : List β) (orders : List (List
   obtain ⟨y, hy⟩ := climb_terminates (score nrow ncol) orders x hn
   exact ⟨y, (outcross_ok_iff nrow ncol x orders y).mpr ⟨hx, hord, hy⟩⟩
 
-/-- the model's output passes the Spec oracle `c17.spec_outcross` (multiset, per-cross counts, no improving
-    exchange left, total not increased) -/
-theorem outcross_meets_spec {β : Type} [DecidableEq β] (nrow ncol : Nat) (x y : List β)
-    (orders : List (List (Nat × Nat))) (h : outcross nrow ncol x orders = .ok y) :
-    (specOutcross nrow ncol x y).ok = true := by
-  have hperm := outcross_multiset nrow ncol x y orders h
-  unfold OutcrossVerdict.ok specOutcross
-  simp only [Bool.and_eq_true, beq_iff_eq, List.all_eq_true, decide_eq_true_eq, List.isEmpty_iff,
-    List.filter_eq_nil_iff, not_lt]
-  refine ⟨⟨⟨⟨hperm.length_eq, fun v _ => (hperm.count_eq v).symm⟩, ?_⟩, ?_⟩, ?_⟩
-  · intro r _
-    exact outcross_rows_antitone nrow ncol x y orders h r
-  · intro ij _
-    exact outcross_local_opt nrow ncol x y orders h ij.1 ij.2
-  · exact outcross_score_antitone nrow ncol x y orders h
+/-! #### every memory layout (`outcrossNd`): what holds for all cross tables, what needs a C-contiguous one -/
+
+/-- **multiset, total and per-cross counts: every cross table, every layout** -/
+theorem outcross_multiset_and_counts (cc : Bool) (nrow ncol : Nat) (x y : List β) (orders : List (List (Nat × Nat)))
+    (h : outcrossNd cc nrow ncol x orders = .ok y) :
+    y.Perm x ∧ score nrow ncol y ≤ score nrow ncol x ∧ ∀ r, dupCount (row ncol y r) ≤ dupCount (row ncol x r) := by
+  unfold outcrossNd at h
+  split_ifs at h with hc hl
+  · exact ⟨outcross_multiset nrow ncol x y orders h, outcross_score_antitone nrow ncol x y orders h,
+      outcross_rows_antitone nrow ncol x y orders h⟩
+  · injection h with h; subst h
+    exact ⟨List.Perm.refl _, le_refl _, fun _ => le_refl _⟩
+
+/-
+FULL STATEMENT (false of the model of the code as it is, see `outcross_noncontiguous_counterexample`; finding D7e):
+  the theorem below for every layout flag `cc`, not only `cc = true`.
+-/
+/-- **It stops only at a local optimum — for a C-contiguous table.** -/
+theorem outcross_local_opt_partial (nrow ncol : Nat) (x y : List β) (orders : List (List (Nat × Nat)))
+    (h : outcrossNd true nrow ncol x orders = .ok y) (i j : Nat) :
+    score nrow ncol y ≤ score nrow ncol (swap y i j) :=
+  outcross_contiguous_local_opt_partial nrow ncol x y orders (by simpa [outcrossNd] using h) i j
+
+/-- **D7e.**  On a table that is not C-contiguous (Fortran order, a column slice, …) `xconfig.ravel()` is a copy:
+    the table `[[1,1],[2,2]]` comes back unchanged (2 repeated individuals) although exchanging flat positions 0
+    and 2 leaves none. -/
+theorem outcross_noncontiguous_counterexample :
+    outcrossNd (β := Nat) false 2 2 [1, 1, 2, 2] [allPairs 4] = .ok [1, 1, 2, 2] ∧
+    score (β := Nat) 2 2 (swap [1, 1, 2, 2] 0 2) < score (β := Nat) 2 2 [1, 1, 2, 2] := by
+  constructor
+  · rfl
+  · decide
+
+/-- the model's output (C-contiguous table) satisfies the outcross clause `OutcrossSpec`, i.e. passes the Spec
+    oracle `c17.spec_outcross` (multiset, per-cross counts, no improving exchange left, total not increased) -/
+theorem outcross_meets_spec_partial {β : Type} [DecidableEq β] (nrow ncol : Nat) (x y : List β)
+    (orders : List (List (Nat × Nat))) (h : outcrossNd true nrow ncol x orders = .ok y) :
+    OutcrossSpec nrow ncol x y ∧ (specOutcross nrow ncol x y).ok = true := by
+  obtain ⟨hp, hs, hr⟩ := outcross_multiset_and_counts true nrow ncol x y orders h
+  have hspec : OutcrossSpec nrow ncol x y :=
+    ⟨hp, fun r _ => hr r, fun i j _ _ => outcross_local_opt_partial nrow ncol x y orders h i j, hs⟩
+  exact ⟨hspec, (specOutcross_iff _ _ _ _).mpr hspec⟩
+
+/-- Spec oracle = statement -/
+theorem outcross_spec_iff {β : Type} [DecidableEq β] (nrow ncol : Nat) (before after : List β) :
+    (specOutcross nrow ncol before after).ok = true ↔ OutcrossSpec nrow ncol before after :=
+  specOutcross_iff nrow ncol before after
 
 end outcross
 
@@ -420,14 +516,20 @@ end outcross
 section axis
 variable {β : Type} [Inhabited β]
 
-/-- **An axis shuffle permutes values only within the requested slices**: for every shape, every set of
-    axes and every sequence of rearrangements the generator produces, the array keeps its size and the
-    values found in each slice (identified by its coordinates at the iterated axes; every index tuple lies
-    in exactly one) are a rearrangement of the values that were in that slice. -/
-theorem axis_shuffle_within_slices (shape axis : List Nat) (data out : List β) (perms : List (List Nat))
-    (h : axisShuffle shape axis data perms = .ok out) :
+/-- **The literal loop is the gather form**: the sequence of in-place shuffles
+    `for s in sliceaxisix(a.shape, axis): rng.shuffle(a[s])` (`axisShuffleLoop`: each view rearranged along its
+    axis 0, one view after the other, on the same flat storage) returns exactly what the closed form
+    `axisShuffle` returns, for every shape, axis list, content and family of rearrangements. -/
+theorem axis_shuffle_loop_eq_gather (shape axis : List Nat) (data : List β) (perms : List (List Nat)) :
+    axisShuffleLoop shape axis data perms = axisShuffle shape axis data perms :=
+  axisShuffleLoop_eq shape axis data perms
+
+/-- within-slices claim for the literal loop, axes as the code reads them (non-negative entries) -/
+theorem axis_loop_within_slices (shape axis : List Nat) (data out : List β) (perms : List (List Nat))
+    (h : axisShuffleLoop shape axis data perms = .ok out) :
     out.length = data.length ∧
     ∀ key, (sliceVals shape axis out key).Perm (sliceVals shape axis data key) := by
+  rw [axisShuffleLoop_eq] at h
   obtain ⟨hlen, _, hcase⟩ := (axisShuffle_ok_iff shape axis data perms out).mp h
   rcases hcase with ⟨_, _, rfl⟩ | ⟨f, hf, _, hperms, rfl⟩
   · exact ⟨rfl, fun _ => List.Perm.refl _⟩
@@ -438,6 +540,35 @@ theorem axis_shuffle_within_slices (shape axis : List Nat) (data out : List β) 
     have := (axisSrc_perm_slice shape axis perms f hf hperms key).map (ndVal shape data)
     rw [List.map_map] at this
     exact this
+
+/-
+FULL STATEMENT (false of the model of the code as it is, see `axis_negative_axis_counterexample`; finding D7f):
+  the theorem below without `∀ z ∈ axis, 0 ≤ z` — an axis may be given counting from the end (numpy convention).
+-/
+/-- **An axis shuffle permutes values only within the requested slices** — for axes given as non-negative
+    integers: for every shape, every such axis list and every sequence of rearrangements the generator
+    produces, the literal loop keeps the array's size and the values found in each requested slice (identified
+    by its coordinates at the requested axes; every index tuple lies in exactly one) are a rearrangement of the
+    values that were in that slice. -/
+theorem axis_shuffle_within_slices_partial (shape : List Nat) (axis : List Int) (data out : List β)
+    (perms : List (List Nat)) (hax : ∀ z ∈ axis, 0 ≤ z)
+    (h : axisShuffleZ shape axis data perms = .ok out) :
+    AxisSpec shape (axisReq shape.length axis) data out := by
+  unfold axisShuffleZ at h
+  rw [← axisEff_eq_axisReq shape.length axis hax]
+  obtain ⟨hl, hp⟩ := axis_loop_within_slices shape (axisEff axis) data out perms h
+  exact ⟨hl, fun key _ => hp key⟩
+
+/-- **D7f.**  A negative axis is not normalised; `sliceaxisix` never matches it, so it is silently ignored:
+    `axis_shuffle(a, -2)` on a 2×2 array (requested slices: the rows) shuffles the whole array along axis 0 —
+    with the rearrangement `[1, 0]` the rows change places and both requested slices hold foreign values. -/
+theorem axis_negative_axis_counterexample :
+    axisShuffleZ (β := Nat) [2, 2] [-2] [0, 1, 2, 3] [[1, 0]] = .ok [2, 3, 0, 1] ∧
+    axisReq 2 [-2] = [0] ∧
+    ¬ AxisSpec (β := Nat) [2, 2] (axisReq 2 [-2]) [0, 1, 2, 3] [2, 3, 0, 1] := by
+  refine ⟨by rfl, by decide, ?_⟩
+  rw [← specAxis_iff]
+  decide
 
 /-- **The slice-index generator** (`sliceaxisix`, transcribed literally as `sliceTuples`): it yields exactly
     one index tuple per combination of coordinates at the iterated axes, in lexicographic order; every tuple
@@ -460,19 +591,21 @@ theorem axis_shuffle_defined (shape axis : List Nat) (data : List β) (perms : L
     (hlen : data.length = shape.prod) (hne : shape ≠ []) (hf : firstFree axis shape.length = some f)
     (hn : perms.length = (sliceKeys shape axis).length)
     (hp : ∀ q ∈ perms, isPerm q (shape.getD f 0) = true) :
-    ∃ out, axisShuffle shape axis data perms = .ok out :=
-  ⟨_, (axisShuffle_ok_iff shape axis data perms _).mpr
+    ∃ out, axisShuffleLoop shape axis data perms = .ok out := by
+  rw [axisShuffleLoop_eq]
+  exact ⟨_, (axisShuffle_ok_iff shape axis data perms _).mpr
     ⟨hlen, hne, Or.inr ⟨f, hf, hn, fun q hq => (isPerm_iff q _).mp (hp q hq), rfl⟩⟩⟩
 
-/-- the model's output passes the Spec oracle `c17.spec_axis` -/
-theorem axis_meets_spec {β : Type} [Inhabited β] [DecidableEq β] (shape axis : List Nat) (data out : List β)
-    (perms : List (List Nat)) (h : axisShuffle shape axis data perms = .ok out) :
-    specAxis shape axis data out = true := by
-  obtain ⟨hl, hperm⟩ := axis_shuffle_within_slices shape axis data out perms h
-  unfold specAxis specAxisBad
-  simp only [Bool.and_eq_true, beq_iff_eq, List.isEmpty_iff, List.filter_eq_nil_iff, Bool.not_eq_true',
-    Bool.not_eq_false, List.all_eq_true, decide_eq_true_eq]
-  refine ⟨hl, fun key _ => ⟨(hperm key).length_eq.symm, fun v _ => ((hperm key).count_eq v).symm⟩⟩
+/-- the model's output (non-negative axes) passes the Spec oracle `c17.spec_axis` -/
+theorem axis_meets_spec_partial {β : Type} [Inhabited β] [DecidableEq β] (shape : List Nat) (axis : List Int)
+    (data out : List β) (perms : List (List Nat)) (hax : ∀ z ∈ axis, 0 ≤ z)
+    (h : axisShuffleZ shape axis data perms = .ok out) :
+    specAxis shape (axisReq shape.length axis) data out = true :=
+  (specAxis_iff _ _ _ _).mpr (axis_shuffle_within_slices_partial shape axis data out perms hax h)
+
+/-- Spec oracle = statement -/
+theorem axis_spec_iff {β : Type} [DecidableEq β] (shape axis : List Nat) (before after : List β) :
+    specAxis shape axis before after = true ↔ AxisSpec shape axis before after := specAxis_iff shape axis before after
 
 end axis
 
@@ -501,6 +634,16 @@ example : SusValid (α := ℚ) [1, 1, 1] [3] ∧ SusOracle (α := ℚ) [1, 1, 1]
 example : (susDraws (α := ℚ) [1, 1, 1, 1] [8] [3, 2, 1, 0] (1/4) [0, 1, 2, 3, 4, 5, 6, 7]).toOption
     = some [3, 3, 2, 2, 1, 1, 0, 0] := by decide +kernel
 
+-- hypotheses of `sus_floor_ceil_rounded` for p = (3,2,1), 6 draws, offset 1/2, ε = 1/8: no pointer within 1/4 of
+-- the interior boundaries 3 and 5
+example : ∀ r < (([3, 2, 1] : List ℚ).filter (fun x => decide (0 < x) || decide (x < 0))).length - 1, r < 3 →
+    ∀ j : ℕ, j < 6 → 2 * (1/8 : ℚ) < |((1/2 : ℚ) + (j : ℚ) * (Np.sum ([3, 2, 1] : List ℚ) / ((6 : Nat) : ℚ)))
+      - (Np.cumsum (([0, 1, 2] : List Nat).map (fun i => ([3, 2, 1] : List ℚ).getD i 0))).getD r 0| := by
+  decide +kernel
+example : (axisShuffleLoop (β := Nat) [2, 3] [1] [0, 1, 2, 3, 4, 5] [[1, 0], [0, 1], [1, 0]]).toOption
+    = some [3, 1, 5, 0, 4, 2] := by decide
+example : (outcrossNd (β := Nat) true 3 2 [1, 1, 2, 2, 3, 4] [allPairs 6, allPairs 6, allPairs 6]).toOption
+    = some [2, 1, 1, 2, 3, 4] := by decide
 example : (tiledIdx 3 7 false [1] [6, 5, 4, 3, 2, 1, 0]).toOption = some [1, 2, 1, 0, 2, 1, 0] := by decide
 example : (tiledChoice [5, 6, 7] [7] false [1] [6, 5, 4, 3, 2, 1, 0]).toOption = some [6, 7, 6, 5, 7, 6, 5] := by decide
 
